@@ -13,19 +13,49 @@ def impl_bound(n):
     return 16 * n + 256
 
 
+WALL_SECONDS = 30          # one decoder call: far beyond anything a linear decoder needs on inputs of a few hundred KiB
+WATCHDOG_SECONDS = 600     # between two recorded events of a driver
+
+
+def _on_alarm(signum, frame):
+    raise BudgetExceeded('wall clock')
+
+
+def arm(seconds):
+    """(re)start the wall-clock guard; main thread only (a loop that makes no call at all is invisible to sys.setprofile)"""
+    import signal
+    import threading
+    if threading.current_thread() is not threading.main_thread():
+        return False
+    if signal.getsignal(signal.SIGALRM) is not _on_alarm:
+        signal.signal(signal.SIGALRM, _on_alarm)
+    signal.setitimer(signal.ITIMER_REAL, seconds)
+    return True
+
+
 class StepCounter:
-    """counts Python-level function entries inside pamqp/* (sys.setprofile 'call' events)"""
+    """counts Python-level function entries inside pamqp/* (sys.setprofile 'call' events); calls of C functions made
+    from pamqp code (divmod, list.append, struct unpack ...) are counted separately against a 40x wider limit, so that
+    a loop that never enters a Python function is stopped deterministically too"""
 
     def __init__(self, limit):
         self.limit = limit
+        self.climit = 40 * limit
         self.steps = 0
+        self.csteps = 0
 
     def _prof(self, frame, event, arg):
-        if event == 'call' and '/pamqp/' in frame.f_code.co_filename:
-            self.steps += 1
-            if self.steps > self.limit:
+        if event == 'call':
+            if '/pamqp/' in frame.f_code.co_filename:
+                self.steps += 1
+                if self.steps > self.limit:
+                    sys.setprofile(None)
+                    raise BudgetExceeded()
+        elif event == 'c_call' and '/pamqp/' in frame.f_code.co_filename:
+            self.csteps += 1
+            if self.csteps > self.climit:
                 sys.setprofile(None)
-                raise BudgetExceeded()
+                raise BudgetExceeded('c calls')
 
     def __enter__(self):
         sys.setprofile(self._prof)
@@ -46,6 +76,7 @@ def with_budget(fn, data, measure_memory=False):
         tracemalloc.reset_peak()
         base = tracemalloc.get_traced_memory()[0]
     res = exc = None
+    armed = arm(WALL_SECONDS)
     try:
         with sc:
             res = fn(data)
@@ -59,6 +90,8 @@ def with_budget(fn, data, measure_memory=False):
         exc = e
     finally:
         sys.setprofile(None)
+        if armed:
+            arm(WATCHDOG_SECONDS)
         if measure_memory:
             peak = max(0, tracemalloc.get_traced_memory()[1] - base)
             tracemalloc.stop()
